@@ -13,6 +13,7 @@ import (
 type Journal struct {
 	Lines   []string
 	Keep    int // max lines kept (0 = all)
+	Dump    bool
 	dropped int
 	sum     uint64
 	shp     uint64
@@ -47,10 +48,27 @@ func (j *Journal) Add(s *Sim, kind string, format string, a ...any) {
 	j.add(fmt.Sprintf("%06d %9.3fs %-10s %s", s.Seq, s.Now().Seconds(), kind, fmt.Sprintf(format, a...)))
 }
 
-func (j *Journal) AddData(s *Sim, kind, name string, b []byte) {
-	h := fnv.New32a()
-	h.Write(b)
-	j.add(fmt.Sprintf("%06d %9.3fs %-10s %s n=%d h=%08x", s.Seq, s.Now().Seconds(), kind, name, len(b), h.Sum32()))
+func (j *Journal) AddData(s *Sim, kind string, e *End, b []byte) {
+	name := e.Name
+	if e.Opaque {
+		// payloads on this connection contain bytes that legitimately differ between
+		// executions of the same schedule (e.g. a gob-encoded Go map inside an encrypted
+		// session cookie): only the event is journaled
+		// (lengths vary by a few bytes with the encoding order, so they are left out too)
+		j.add(fmt.Sprintf("%06d %9.3fs %-10s %s", s.Seq, s.Now().Seconds(), kind, name))
+	} else {
+		h := fnv.New32a()
+		h.Write(b)
+		j.add(fmt.Sprintf("%06d %9.3fs %-10s %s n=%d h=%08x", s.Seq, s.Now().Seconds(), kind, name, len(b), h.Sum32()))
+	}
+	if j.Dump && kind != "deliver" {
+		// payload dump for debugging only; not part of the hash
+		t := b
+		if len(t) > 2000 {
+			t = t[:2000]
+		}
+		j.Lines = append(j.Lines, fmt.Sprintf("        | %q", t))
+	}
 }
 
 // Note records an oracle observation.
